@@ -616,13 +616,13 @@ pub fn generate(tier: Tier, rng: &mut Rng, emit: &mut dyn FnMut(String)) {
     for d in directed {
         emit(format!("process limitscase {}", hex(d)));
     }
-    for _ in 0..(if quick { 300 } else { 10000 }) {
+    for _ in 0..(if quick { 1000 } else { 10000 }) {
         emit(format!("process limitscase {}", hex(&pg::gen_limits(rng))));
     }
     // ---- fpo
     let sizes = [0u64, 4, 8, 0xc, 0x10, 0x1000, 0x7fffffff, 0x80000000, 0xfffffff8, 0xfffffffc, 0xffffffff];
     let esps = [0u64, 4, 7, 8, 100, 0x1000, 0x7fffff00, 0xfffffff0, 0xfffffffc, 0xffffffff];
-    for _ in 0..(if quick { 600 } else { 30000 }) {
+    for _ in 0..(if quick { 2000 } else { 30000 }) {
         let small = rng.chance(2, 3);
         let pick = |rng: &mut Rng| if small { *rng.pick(&sizes[..6]) } else { *rng.pick(&sizes) };
         let (local, saved, params, gcps) = (pick(rng), pick(rng), pick(rng), pick(rng));
@@ -668,7 +668,7 @@ pub fn generate(tier: Tier, rng: &mut Rng, emit: &mut dyn FnMut(String)) {
         }
     }
     // ---- guard pages
-    for _ in 0..(if quick { 300 } else { 10000 }) {
+    for _ in 0..(if quick { 1000 } else { 10000 }) {
         let kind = if rng.chance(1, 2) { "info" } else { "maps" };
         let page = match rng.below(5) {
             0 => 0xffff_ffff_ffff_f000u64,
@@ -723,7 +723,7 @@ pub fn generate(tier: Tier, rng: &mut Rng, emit: &mut dyn FnMut(String)) {
             }
         }
     }
-    for _ in 0..(if quick { 200 } else { 10000 }) {
+    for _ in 0..(if quick { 1000 } else { 10000 }) {
         emit(format!("process op code:{} rsp:{}", hex(&pg::gen_code(rng)), *rng.pick(&[0u64, 4, 8, 0x7ffd_0000_0010, u64::MAX])));
     }
 }
